@@ -14,6 +14,8 @@ driver for the framer clock model (engine `floclock`, C11)
     `done me` frames (`H 0 0` when there is none); in a main frame `S <nneeds> need*` is the suspender line
     verb  := `T <num>` (timeout) | `R <num>` (repeat) | `G <far> <nneeds> need*`   far := `next`|`me`|`<idx>`
     need  := `E <cmp> <num>` (elapsed) | `C <cmp> <nat>` (recurred)    cmp := ge gt le lt eq ne
+  `runfp` / `runip` `<P> <B> <start> <nticks> <nframes> frame* A <main frame idx> <nframes> frame*`: the timed framer
+    (plain verbs only) carries a plain auxiliary `aux pa` in frame <main>; reply per tick `<framer tick>/<aux tick|->`
 reply: `ERR build`, or per tick `<active idx><*|.>:<elapsed>:<recurred>:<store stamp>`  (`*` = outline changed in this tick)
 -/
 namespace Ioflo.Drv.FloClock
@@ -150,6 +152,25 @@ def runLine {τ : Type} [Add τ] [Sub τ] [LE τ] [LT τ] [DecidableLE τ] [Deci
     return " ".intercalate ((runG (decideS prog ⟨hfr, dn⟩) {} (stampsFromB base per start nticks)).map (showObs sh))
   | _, _ => return "ERR build"
 
+def runLineP {τ : Type} [Add τ] [Sub τ] [LE τ] [LT τ] [DecidableLE τ] [DecidableLT τ] [OfNat τ 0] [Lit τ]
+    (num : P τ) (sh : τ → String) (ts : List String) : Option String := do
+  let (per, r) ← num ts
+  let (base, r) ← num r
+  let (start, r) ← nat r
+  let (nticks, r) ← nat r
+  let (p, r) ← many (frameP num) r
+  let (_, r) ← (match r with | "A" :: r => some ((), r) | _ => none)
+  let (m, r) ← nat r
+  let (af, r) ← many (frameP num) r
+  if r ≠ [] then none
+  if p.isEmpty || af.isEmpty || m ≥ p.length then none
+  match resolve p, resolve af with
+  | .ok prog, .ok afr =>
+    if !(oversOk prog) || !(oversOk afr) then none
+    return " ".intercalate ((runP prog ⟨m, afr⟩ (stampsFromB base per start nticks)).map
+      (fun r => showObs sh r.1 ++ "/" ++ (match r.2 with | some o => showObs sh o | none => "-")))
+  | _, _ => return "ERR build"
+
 def step (_ : Unit) (line : String) : Unit × String :=
   match words line with
   | "runfb" :: ts => ((), (runLine false true floatP (fun x => natToHex 16 x.toBits.toNat) ts).getD "bad-op")
@@ -158,6 +179,8 @@ def step (_ : Unit) (line : String) : Unit × String :=
   | "runiqb" :: ts => ((), (runLine true true intP (fun (x : Int) => toString x) ts).getD "bad-op")
   | "runfq" :: ts => ((), (runLine true false floatP (fun x => natToHex 16 x.toBits.toNat) ts).getD "bad-op")
   | "runiq" :: ts => ((), (runLine true false intP (fun (x : Int) => toString x) ts).getD "bad-op")
+  | "runfp" :: ts => ((), (runLineP floatP (fun x => natToHex 16 x.toBits.toNat) ts).getD "bad-op")
+  | "runip" :: ts => ((), (runLineP intP (fun (x : Int) => toString x) ts).getD "bad-op")
   | "runf" :: ts => ((), (runLine false false floatP (fun x => natToHex 16 x.toBits.toNat) ts).getD "bad-op")
   | "runi" :: ts => ((), (runLine false false intP (fun (x : Int) => toString x) ts).getD "bad-op")
   | _ => ((), "bad-op")
